@@ -3,7 +3,10 @@
 package stats
 
 import (
+	"context"
+	"encoding/json"
 	"fmt"
+	"log/slog"
 	"math/rand"
 	"os"
 	"path/filepath"
@@ -796,7 +799,7 @@ func c09ConcHistory(rep *verifkit.Report, rng *rand.Rand, dir string, idx int, s
 
 func TestVerifC09Concurrent(t *testing.T) {
 	rep := verifkit.New(c09Prop(), c09Part(),
-		"case = one round of a concurrent history on a running module: 8 updater goroutines + 2 readers of GET /control/stats (+ hour advancer that either calls flush() as the only flusher or, with the real Start() loop alive, waits for it; + optional retention toggler); checked per read (between completed and started updates), per round with porcupine against a counter model, at quiescence exactly (totals, categories, per-hour bounds from the hour tags), and across a final clean restart; -race is on; non-trivial = the round had a rollover that overlapped at least one update; distinct by the observed operation order and read values; storm rounds: 24-60 back-to-back rollovers under 4 hammering readers; reset rounds (C09 only): POST /control/stats_reset hammered against the real loop and readers while every tick is a rollover, then reset, count, advance, wait for the real loop, count, compare; shutdown rounds (C09 only): counts in hour H, a writer transaction (as a dashboard read holds) delays Close between detaching the database and serialising the unit, the hour id changes and flush runs in that gap, then New on the same file and the model comparison")
+		"case = one round of a concurrent history on a running module: 8 updater goroutines + 2 readers of GET /control/stats (+ hour advancer that either calls flush() as the only flusher or, with the real Start() loop alive, waits for it; + optional retention toggler); checked per read (between completed and started updates), per round with porcupine against a counter model, at quiescence exactly (totals, categories, per-hour bounds from the hour tags), and across a final clean restart; -race is on; non-trivial = the round had a rollover that overlapped at least one update; distinct by the observed operation order and read values; storm rounds: 24-60 back-to-back rollovers under 4 hammering readers; reset rounds (C09 only): POST /control/stats_reset hammered against the real loop and readers while every tick is a rollover, then reset, count, advance, wait for the real loop, count, compare; shutdown rounds (C09 only): counts in hour H, a writer transaction (as a dashboard read holds) delays Close between detaching the database and serialising the unit, the hour id changes and flush runs in that gap, then New on the same file and the model comparison; in-flight-reset rounds (C09 only): 1-4 reads (GET /control/stats, TopClientsIP) are inside loadUnits when POST /control/stats_reset starts, after everything has returned k updates are counted and every later report must show exactly those k")
 	defer func() {
 		if err := rep.Write(); err != nil {
 			t.Fatal(err)
@@ -842,6 +845,10 @@ func TestVerifC09Concurrent(t *testing.T) {
 			c09ShutdownOverlapHistory(rep, rng, dir, i, i < nLoop)
 		}
 		need = append(need, "flush_calls_between_detach_and_serialisation_of_a_close")
+		for i, k := 0, verifkit.Pick(14, 120); i < k && !rep.Violated(); i++ {
+			c09ResetInFlightHistory(rep, rng, dir, i)
+		}
+		need = append(need, "reset_rounds_with_a_read_spanning_the_reset")
 	}
 	if rep.Violated() {
 		return
@@ -1280,5 +1287,284 @@ func c09ShutdownOverlapHistory(rep *verifkit.Report, rng *rand.Rand, dir string,
 	rep.Class("shape:close-overlapping-rollover")
 	if idx == 0 {
 		rep.Sample(map[string]any{"shutdown_round": steps})
+	}
+}
+
+// c09Trap is a slog.Handler owned by the harness.  It discards everything.
+// While armed, the first "loading unit" debug record (loadUnitFromDB logs one
+// per stored unit) signals seen and, when hold is set, keeps the logging
+// goroutine there until release is closed: a GET /control/stats stopped in
+// the middle of loading the stored units, holding bbolt's writer transaction,
+// exactly where a slow disk would keep it.
+type c09Trap struct {
+	cur atomic.Pointer[c09TrapRound]
+}
+
+type c09TrapRound struct {
+	armed   atomic.Bool
+	hold    bool
+	seen    chan struct{}
+	release chan struct{}
+}
+
+func (h *c09Trap) Enabled(context.Context, slog.Level) bool { return true }
+
+func (h *c09Trap) Handle(_ context.Context, r slog.Record) error {
+	if r.Message != "loading unit" {
+		return nil
+	}
+	if tr := h.cur.Load(); tr != nil && tr.armed.CompareAndSwap(true, false) {
+		close(tr.seen)
+		if tr.hold {
+			<-tr.release
+		}
+	}
+	return nil
+}
+
+func (h *c09Trap) WithAttrs([]slog.Attr) slog.Handler { return h }
+func (h *c09Trap) WithGroup(string) slog.Handler      { return h }
+
+// c09ResetInFlightHistory: reads that are in flight when a reset starts.
+// GET /control/stats and TopClientsIP are not serialised with POST
+// /control/stats_reset.  Hours before the current one hold counts, so a read
+// has stored units to load; the first read is caught inside loadUnits (held
+// there until the reset has detached the database, or - "natural" rounds, 720 h
+// window with 30-50 stored hours - just observed there), 0-3 more reads are
+// started, then the reset.  What the overlapping reads return is not specified
+// (old data, nothing, or an error; counted).  After the reset and every read
+// have returned, k updates are counted: every later report must show exactly
+// those k (the model is empty after a reset).
+func c09ResetInFlightHistory(rep *verifkit.Report, rng *rand.Rand, dir string, idx int) {
+	file := filepath.Join(dir, fmt.Sprintf("inflight-%d.db", idx))
+	defer os.Remove(file)
+	hour := &atomic.Uint32{}
+	hour.Store(400000 + uint32(rng.Intn(100000)))
+	natural := idx%4 == 3
+	limitH := []uint32{24, 24, 168}[rng.Intn(3)]
+	stored := 1 + rng.Intn(5)
+	if natural {
+		limitH, stored = 720, 30+rng.Intn(21)
+	}
+	trap := &c09Trap{}
+	steps := []any{fmt.Sprintf("New(limit %d h) at hour %d", limitH, hour.Load())}
+	in, err := c09OpenLog(file, hour, limitH, true, false, slog.New(trap))
+	if err != nil {
+		rep.Violate("conc:new-failed", "stats.New failed on a fresh file: "+err.Error(), steps)
+		return
+	}
+	defer in.close()
+	m := &c09Model{Hours: map[uint32]*c09Hour{}, Cur: hour.Load(), LimitH: limitH, Enabled: true}
+	violate := func(key, what string, extra map[string]any) {
+		w := map[string]any{"steps": steps, "model": m.snapshot()}
+		for k, v := range extra {
+			w[k] = v
+		}
+		rep.Violate(key, what, w)
+	}
+	burst := func(lo, hi int) int {
+		n := lo + rng.Intn(hi-lo+1)
+		for i := 0; i < n; i++ {
+			e := c09ValidEntry(rng, 20, 30)
+			in.update(e)
+			m.count(m.Cur, e.Result)
+		}
+		return n
+	}
+	before := 0
+	for i := 0; i < stored; i++ {
+		before += burst(1, 25)
+		hour.Add(1)
+		if p := in.flush(); p != "" {
+			violate("conc:flush-panic", "flush crashed: "+p, nil)
+			return
+		}
+		m.Cur = hour.Load()
+		m.expire()
+	}
+	before += burst(0, 10)
+	steps = append(steps, fmt.Sprintf("%d countable updates spread over %d stored hours and the current hour %d", before, stored, m.Cur))
+	// Sanity: the report before the reset (also fills whatever a read may keep).
+	if rng.Intn(2) == 0 {
+		if r, problem := in.read(); problem == "" {
+			if mm, _ := m.check(r); len(mm) > 0 {
+				violate("conc:"+mm[0].Kind+":before-reset", "report before the reset: "+mm[0].Detail, map[string]any{"report": c09Brief(r, m.first())})
+				return
+			}
+			steps = append(steps, "GET /control/stats (checked)")
+		}
+	}
+
+	nReaders := 1 + rng.Intn(4)
+	tr := &c09TrapRound{hold: !natural, seen: make(chan struct{}), release: make(chan struct{})}
+	tr.armed.Store(true)
+	trap.cur.Store(tr)
+	type readRes struct {
+		kind            string
+		call, ret       time.Time
+		code            int
+		total           uint64
+		failed, paniced string
+	}
+	results := make([]readRes, nReaders)
+	var wg sync.WaitGroup
+	reader := func(i int) {
+		defer wg.Done()
+		res := &results[i]
+		res.call = time.Now()
+		defer func() {
+			if p := recover(); p != nil {
+				res.paniced = fmt.Sprint(p)
+			}
+			res.ret = time.Now()
+		}()
+		if res.kind == "TopClientsIP" {
+			in.s.TopClientsIP(10)
+			return
+		}
+		code, body, p := in.call("GET", "/control/stats", "")
+		res.code = code
+		if p != nil {
+			res.paniced = fmt.Sprint(p)
+			return
+		}
+		if code != 200 {
+			res.failed = fmt.Sprintf("status %d", code)
+			return
+		}
+		r := &c09Resp{}
+		if jerr := json.Unmarshal(body, r); jerr != nil {
+			res.failed = "undecodable"
+			return
+		}
+		res.total = r.NumDNSQueries
+	}
+	for i := range results {
+		results[i].kind = "GET /control/stats"
+		if rng.Intn(3) == 0 {
+			results[i].kind = "TopClientsIP"
+		}
+	}
+	wg.Add(1)
+	go reader(0)
+	trapped := false
+	select {
+	case <-tr.seen:
+		trapped = true
+	case <-time.After(5 * time.Second):
+		// The debug record did not come (message changed?): natural timing only.
+		tr.armed.Store(false)
+	}
+	for i := 1; i < nReaders; i++ {
+		wg.Add(1)
+		go reader(i)
+	}
+	for y := rng.Intn(6); y > 0; y-- {
+		runtime.Gosched()
+	}
+	var resetCall, resetRet time.Time
+	var resetProblem string
+	wg.Add(1)
+	go func() {
+		defer wg.Done()
+		resetCall = time.Now()
+		resetProblem = in.reset()
+		resetRet = time.Now()
+	}()
+	detached := false
+	if trapped && tr.hold {
+		for deadline := time.Now().Add(10 * time.Second); time.Now().Before(deadline); {
+			if detached = in.s.db.Load() == nil; detached {
+				break
+			}
+			time.Sleep(100 * time.Microsecond)
+		}
+	}
+	close(tr.release)
+	joined := make(chan struct{})
+	go func() { wg.Wait(); close(joined) }()
+	select {
+	case <-joined:
+	case <-time.After(c09StallAfter):
+		buf := make([]byte, 4<<20)
+		fmt.Fprintf(os.Stderr, "C09 watchdog: reset with reads in flight did not finish in %s\n%s\n", c09StallAfter, buf[:runtime.Stack(buf, true)])
+		rep.Inconcl(fmt.Sprintf("a reset with reads in flight did not finish within %s (goroutine dump in the part's log)", c09StallAfter))
+		_ = rep.Write()
+		os.Exit(3)
+	}
+	trap.cur.Store(nil)
+	steps = append(steps, fmt.Sprintf("%d reads started (first one caught inside loadUnits: %v, held there until the reset had detached the database: %v), then POST /control/stats_reset; all returned",
+		nReaders, trapped, trapped && tr.hold && detached))
+	if resetProblem != "" {
+		violate("conc:reset-failed:read-in-flight-during-reset", "POST /control/stats_reset failed: "+resetProblem, nil)
+		return
+	}
+	spanned := 0
+	for i, res := range results {
+		if res.paniced != "" {
+			violate("conc:read-panic:read-in-flight-during-reset", res.kind+" panicked while a reset was in progress: "+res.paniced, nil)
+			return
+		}
+		if res.call.Before(resetCall) && res.ret.After(resetCall) {
+			spanned++
+		}
+		if !(res.ret.Before(resetCall) || res.call.After(resetRet)) && res.kind != "TopClientsIP" {
+			switch {
+			case res.failed != "":
+				rep.Unspec("read-overlapping-reset:failed")
+			case res.total == 0:
+				rep.Unspec("read-overlapping-reset:reported-nothing")
+			case res.total == uint64(before):
+				rep.Unspec("read-overlapping-reset:reported-the-old-data")
+			default:
+				rep.Unspec("read-overlapping-reset:reported-something-else")
+			}
+		}
+		steps = append(steps, fmt.Sprintf("read %d: %s -> status %d total %d %s", i, res.kind, res.code, res.total, res.failed))
+	}
+	rep.Event("reset_rounds_with_reads_in_flight")
+	if spanned > 0 {
+		rep.Event("reset_rounds_with_a_read_spanning_the_reset")
+	}
+	if trapped && tr.hold && detached {
+		rep.Event("reset_rounds_with_a_read_held_in_loadUnits_until_the_database_was_detached")
+	}
+	rep.EventN("reads_spanning_a_reset", spanned)
+
+	// Quiescence: the model is empty.
+	m.clear()
+	m.Cur = hour.Load()
+	ok := true
+	for pass := 0; pass < 2 && ok; pass++ {
+		k := burst(1, 12)
+		steps = append(steps, fmt.Sprintf("%d countable updates after the reset had returned", k))
+		for rd := 0; rd < 2 && ok; rd++ {
+			r, problem := in.read()
+			if problem != "" {
+				violate("conc:read-failed:after-reset", "GET /control/stats failed after the reset: "+problem, nil)
+				return
+			}
+			mm, _ := m.check(r)
+			if len(mm) == 0 {
+				continue
+			}
+			ok = false
+			key := "conc:" + mm[0].Kind + ":read-in-flight-during-reset"
+			var want uint64
+			for _, mh := range m.Hours {
+				want += mh.all().Total
+			}
+			if r.NumDNSQueries > want {
+				key = "conc:cleared-queries-reported-after-reset:read-in-flight-during-reset"
+			}
+			violate(key, fmt.Sprintf("after POST /control/stats_reset and every read in flight had returned, %d queries were counted, but the report shows num_dns_queries=%d (%d queries had been counted before the reset): %s",
+				want, r.NumDNSQueries, before, mm[0].Detail),
+				map[string]any{"mismatches": mm, "report": c09Brief(r, m.first()), "reads_spanning_the_reset_start": spanned})
+		}
+	}
+	rep.Eval(ok && spanned > 0, fmt.Sprintf("inflight|%d|%s", idx, verifkit.JSON(steps)))
+	rep.Class("shape:reset-with-reads-in-flight")
+	if idx == 0 {
+		rep.Sample(map[string]any{"reset_with_reads_in_flight": steps})
 	}
 }
